@@ -77,9 +77,23 @@ func mkEvent(i int, t watch.EventType) watch.Event {
 	}
 	s := &asv1.StatefulSet{TypeMeta: metav1.TypeMeta{Kind: "StatefulSet", APIVersion: "apps.pingcap.com/v1"}, ObjectMeta: metav1.ObjectMeta{Name: fmt.Sprintf("obj%d", i), Namespace: "default", ResourceVersion: fmt.Sprint(10 + i)}}
 	if t != watch.Bookmark {
-		r := int32(i)
-		s.Spec.Replicas = &r
-		s.Status.Replicas = int32(i)
+		// later events carry less than earlier ones (labels, annotations, counters and pointers disappear): nothing of
+		// an earlier event may show through in a later one
+		r := int32(3 - i)
+		switch i {
+		case 0:
+			s.Labels = map[string]string{"a": "b"}
+			s.Annotations = map[string]string{"delete-slots": "[1]", "x": "y"}
+			s.Spec.Replicas = &r
+			s.Spec.ServiceName = "svc"
+			s.Status = asv1.StatefulSetStatus{Replicas: 3, ReadyReplicas: 3, CurrentRevision: "r1", ObservedGeneration: 2}
+		case 1:
+			s.Annotations = map[string]string{"x": "y"}
+			s.Spec.Replicas = &r
+			s.Status = asv1.StatefulSetStatus{Replicas: 2}
+		default:
+			// a bare object
+		}
 	}
 	return watch.Event{Type: t, Object: s}
 }
